@@ -40,7 +40,9 @@ vp_q_of(const nni_list *l)
 	__CPROVER_assert(l == g_rq_addr || l == g_wq_addr, "list: readq or writeq of the connection under test");
 	return (l == g_rq_addr ? &g_rq : &g_wq);
 }
-/* the head leaves: whoever is behind it (if anyone) is an arbitrary well-formed aio */
+/* the head leaves: whoever is behind it (if anyone) is the stand-in aio `later`: an arbitrary
+ * well-formed vector (fixed by the precondition, the same for every later head -- each loop
+ * iteration is verified for every such vector) with an arbitrary byte count */
 static void
 vp_q_pop(vp_q *q, nni_aio *aio)
 {
@@ -49,17 +51,7 @@ vp_q_pop(vp_q *q, nni_aio *aio)
 	g_pops++;
 	g_pop_last = aio;
 	if (g_q_objects) {
-		nni_aio  x; /* arbitrary */
-		unsigned nio = x.a_nio;
-		x.a_nio      = (nio <= NNI_AIO_MAX_IOV) ? nio : 0;
-		for (unsigned i = 0; i < NNI_AIO_MAX_IOV; i++) {
-			x.a_iov[i].iov_len &= VIOV_LENMAX;
-		}
-		q->later->a_nio   = x.a_nio;
-		q->later->a_count = x.a_count;
-		for (unsigned i = 0; i < NNI_AIO_MAX_IOV; i++) {
-			q->later->a_iov[i] = x.a_iov[i];
-		}
+		q->later->a_count = nondet_size_t();
 	}
 }
 void *
